@@ -1,4 +1,5 @@
 import GqlProofs.Parser.Results
+import GqlProofs.Parser.ResultsMulti
 import GqlProofs.Parser.SoundTop
 import GqlProofs.Parser.SoundSchemaTop
 /-
@@ -167,6 +168,28 @@ theorem C16_monotone_schemas (L L' : Nat) (srcs : List (Bool × Bytes)) (d : Sch
     (h : parseSchemas L srcs = .ok d) : parseSchemas L' srcs = .ok d :=
   parseSchemasFrom_mono (stricter_le h0 hle) srcs 0 _ d h
 
+/-- **exact**, several sources (`ParseSchemasWithLimit`): under `L ≠ 0` the sources parse iff they parse
+    without limit and EVERY source on its own has at most `L` lexer tokens — the limit is neither a
+    budget shared by the sources nor waived for a source that carries the BuiltIn mark -/
+theorem C16_limit_exact_schemas (L : Nat) (srcs : List (Bool × Bytes)) (hL : L ≠ 0) :
+    (parseSchemas L srcs).isOk = true ↔
+      (parseSchemas 0 srcs).isOk = true ∧ ∀ s ∈ srcs, countTokens s.2 ≤ L :=
+  parseSchemasFrom_exact hL srcs 0 _
+
+/-- a source with more than `L` tokens is refused, wherever it stands and whatever its BuiltIn mark -/
+theorem C16_source_beyond_limit_refused (L : Nat) (srcs : List (Bool × Bytes)) (hL : L ≠ 0)
+    (s : Bool × Bytes) (hs : s ∈ srcs) (h : L < countTokens s.2) : (parseSchemas L srcs).isOk = false := by
+  cases hok : (parseSchemas L srcs).isOk with
+  | false => rfl
+  | true =>
+    have := ((C16_limit_exact_schemas L srcs hL).1 hok).2 s hs
+    omega
+
+/-- whether the sources parse under a limit does not depend on their BuiltIn marks -/
+theorem C16_limit_ignores_builtin_marks (L : Nat) (srcs : List (Bool × Bytes)) :
+    (parseSchemas L srcs).isOk = (parseSchemas L (srcs.map fun s => (false, s.2))).isOk :=
+  parseSchemasFrom_isOk_flags L srcs 0 _ _
+
 /-! ### non-vacuity (kernel-evaluated runs of the model) -/
 
 example : Stricter 3 7 := stricter_le (by decide) (by decide)
@@ -181,6 +204,9 @@ example : (runQuery 2 [123, 97, 125]).2.pulls = 3 := by decide      -- the bound
 example : (parseSchema 0 [116,121,112,101,32,65,123,97,58,66,125]).isOk = true := by decide
 example : (runSchema 0 0 [116,121,112,101,32,65,123,97,58,66,125]).2.tokenCount = 7 := by decide
 example : (parseSchema 6 [116,121,112,101,32,65,123,97,58,66,125]).isOk = false := by decide
+-- two sources, the second marked BuiltIn: seven tokens each; limit 7 passes, limit 6 does not (not a shared budget, not waived)
+example : (parseSchemas 7 [(false, [116,121,112,101,32,65,123,97,58,66,125]), (true, [116,121,112,101,32,66,123,97,58,66,125])]).isOk = true := by decide
+example : (parseSchemas 6 [(false, [115,99,97,108,97,114,32,83]), (true, [116,121,112,101,32,66,123,97,58,66,125])]).isOk = false := by decide
 -- a state with the error set exists (hypothesis of `C16_error_sticky`)
 example : ((run 1 (parseQueryDocument 5) (PState.init 0 [123, 97, 125])).2.err.isSome) = true := by decide
 #print axioms C16_count_is_lexer_count_query
